@@ -90,11 +90,16 @@ def call_args(n):
     return n.get("args", [])
 
 
+def _transparent_block(n):
+    """a block that is only its tail: no statements, or (an inlined helper call) only the parameter bindings"""
+    return n.get("k") == "blockexpr" and "tail" in n["b"] and all(s.get("inl_param") for s in n["b"]["stmts"])
+
+
 def peel(n):
     """look through parentheses-like wrappers: block with only a tail, & / &mut, *, casts are kept"""
     while True:
         k = n.get("k")
-        if k == "blockexpr" and not n["b"]["stmts"] and "tail" in n["b"]:
+        if k == "blockexpr" and _transparent_block(n):
             n = n["b"]["tail"]
         elif k == "ref":
             n = n["e"]
@@ -105,7 +110,7 @@ def peel(n):
 
 
 def peel_block(n):
-    while n.get("k") == "blockexpr" and not n["b"]["stmts"] and "tail" in n["b"]:
+    while n.get("k") == "blockexpr" and _transparent_block(n):
         n = n["b"]["tail"]
     return n
 
